@@ -2,6 +2,7 @@ package main
 
 import (
 	"fmt"
+	"math"
 	"strings"
 
 	"github.com/quasilyte/go-ruleguard/ruleguard"
@@ -39,7 +40,13 @@ func runC15(c *Ctx) error {
 	var inputs []interface{}
 	for n := 0; n <= N; n++ {
 		s := c15Text(n)
+		limits := make([]int, 0, N+32)
 		for L := -3; L <= N+6; L++ {
+			limits = append(limits, L)
+		}
+		// the ends of the int range: arithmetic on the limit must not wrap around
+		limits = append(limits, math.MinInt64, math.MinInt64+1, math.MinInt64+4, math.MinInt64+5, math.MinInt64+6, -1<<62, -1<<31, 1<<31, 1<<62, math.MaxInt64-1, math.MaxInt64)
+		for _, L := range limits {
 			L := L
 			out := hx.Safe(func() string { return "ok " + hx.Hex(ruleguard.VerifTruncateText(s, L)) })
 			ops = append(ops, fmt.Sprintf("trunc %s %d", hx.Hex(s), L))
@@ -99,13 +106,13 @@ func r(m dsl.Matcher) {
 	if err != nil {
 		return fmt.Errorf("target: %v", err)
 	}
-	cfgs := []int{-7, -1, 0, 1, 2, 3, 4, 5, 6, 7, 8, 9, 10, 11, 20, 33, 59, 60, 61, 64, 65, 66, 100, 1000}
+	cfgs := []int{-7, -1, 0, 1, 2, 3, 4, 5, 6, 7, 8, 9, 10, 11, 20, 33, 59, 60, 61, 64, 65, 66, 100, 1000, math.MinInt64, math.MinInt64 + 3, math.MinInt64 + 5, math.MaxInt64}
 	if c.Thorough {
 		cfgs = nil
 		for L := -8; L <= M+8; L++ {
 			cfgs = append(cfgs, L)
 		}
-		cfgs = append(cfgs, 1000, 1<<40)
+		cfgs = append(cfgs, 1000, 1<<40, math.MinInt64, math.MinInt64+1, math.MinInt64+4, math.MinInt64+5, math.MaxInt64)
 	}
 	ops, impl, specOps, inputs = nil, nil, nil, nil
 	// every limit twice: with a fresh RunContext and no state, and the way a driver does that keeps ONE RunContext and ONE
